@@ -837,6 +837,11 @@ def truth_under(v, assign):
                     for g, sval in assign:
                         if alg.decide_equal(x, g) == 'equal':
                             return (sval == m.group(1)) == (a.name == 'eq')
+                        # a string method of the generator: lower / upper / strip / capitalize / title
+                        xa = _single_atom(x)
+                        if xa is not None and xa.kind == 'fn' and xa.name.startswith('method:') and xa.args and isinstance(xa.args[0], Rat) \
+                                and len(xa.args) == 1 and alg.decide_equal(xa.args[0], g) == 'equal' and xa.name[7:] in ('lower', 'upper', 'strip', 'capitalize', 'title', 'casefold'):
+                            return (getattr(sval, xa.name[7:])() == m.group(1)) == (a.name == 'eq')
         return None
     if a.name == 'not' and a.args and isinstance(a.args[0], Rat):
         t = truth_under(a.args[0], assign)
